@@ -20,6 +20,8 @@
 #include <kernel/lafem/sparse_matrix_csr.hpp>
 #include <kernel/lafem/sparse_matrix_bcsr.hpp>
 #include <kernel/lafem/dense_matrix.hpp>
+#include <kernel/lafem/sparse_matrix_cscr.hpp>
+#include <kernel/lafem/sparse_matrix_banded.hpp>
 #include <kernel/lafem/power_row_matrix.hpp>
 #include <kernel/lafem/power_col_matrix.hpp>
 #include <kernel/lafem/power_diag_matrix.hpp>
@@ -39,6 +41,8 @@ namespace
   typedef SparseMatrixCSR<Q, Index> Csr;
   template<int bh_, int bw_> using Bcsr = SparseMatrixBCSR<Q, Index, bh_, bw_>;
   typedef DenseMatrix<Q, Index> Dns;
+  typedef SparseMatrixCSCR<Q, Index> Cscr;
+  typedef SparseMatrixBanded<Q, Index> Bnd;
 
   QV qlist(Cur& c) { std::size_t n = c.idx(); QV v(n); for(auto& x : v) x = Q::parse(c.str()); return v; }
   DenseVector<Index, Index> ivec(const NV& v) { DenseVector<Index, Index> r(Index(v.size())); for(Index i(0); i < Index(v.size()); ++i) r(i, Index(v[i])); return r; }
@@ -76,6 +80,31 @@ namespace
       if(val.empty()) return Bcsr<bh_, bw_>(rows, cols);
       auto vci = ivec(ci); auto vrp = ivec(rp); auto vv = qvec(val);
       return Bcsr<bh_, bw_>(rows, cols, vci, vv, vrp);
+    }
+  };
+
+  template<> struct Meta<Cscr>
+  {
+    static Cscr make(Cur& c)
+    {
+      expect(c, "cscr");
+      Index rows = c.idx(), cols = c.idx();
+      NV rp = c.idxlist(), ci = c.idxlist(); QV val = qlist(c); NV rn = c.idxlist();
+      if(val.empty()) return Cscr(rows, cols);
+      auto vci = ivec(ci); auto vrp = ivec(rp); auto vv = qvec(val); auto vrn = ivec(rn);
+      return Cscr(rows, cols, vci, vv, vrp, vrn);
+    }
+  };
+
+  template<> struct Meta<Bnd>
+  {
+    static Bnd make(Cur& c)
+    {
+      expect(c, "banded");
+      Index rows = c.idx(), cols = c.idx();
+      NV off = c.idxlist(); QV val = qlist(c);
+      auto voff = ivec(off); auto vv = qvec(val);
+      return Bnd(rows, cols, vv, voff);
     }
   };
 
@@ -308,5 +337,10 @@ void handle_meta(Cur& c, std::ostream& o)
   else if(ty == "pdiag2_pfull22") run<PowerDiagMatrix<PowerFullMatrix<Csr, 2, 2>, 2>, true>(c, o, op);
   else if(ty == "tdiag_csr_dense") run<TupleDiagMatrix<Csr, Dns>>(c, o, op);
   else if(ty == "tdiag_csr_saddle_csr") run<TupleDiagMatrix<Csr, Sad, Csr>>(c, o, op);
+  else if(ty == "pdiag2_cscr") run<PowerDiagMatrix<Cscr, 2>, true>(c, o, op);
+  else if(ty == "pcol2_cscr") run<PowerColMatrix<Cscr, 2>, true>(c, o, op);
+  else if(ty == "prow2_banded") run<PowerRowMatrix<Bnd, 2>, true>(c, o, op);
+  else if(ty == "saddle_banded") run<SaddlePointMatrix<Bnd, Csr, Cscr>, true>(c, o, op);
+  else if(ty == "tuple22_banded_cscr") run<TupleMatrix<TupleMatrixRow<Bnd, Cscr>, TupleMatrixRow<Cscr, Bnd>>>(c, o, op);
   else o << "BAD-OP";
 }
